@@ -45,6 +45,7 @@ import (
 	"github.com/plgd-dev/go-coap/v3/options"
 	pkgErrors "github.com/plgd-dev/go-coap/v3/pkg/errors"
 	"github.com/plgd-dev/go-coap/v3/tcp"
+	tcpclient "github.com/plgd-dev/go-coap/v3/tcp/client"
 	tcpcoder "github.com/plgd-dev/go-coap/v3/tcp/coder"
 	"github.com/plgd-dev/go-coap/v3/udp"
 	udpclient "github.com/plgd-dev/go-coap/v3/udp/client"
@@ -862,6 +863,85 @@ func serveUDPBacklog(slowMs, burst int) string {
 	return fmt.Sprintf("b got %d/1 waited %d slowhandled %d serving %d", got, waited, slowHandled.Load(), stillServing)
 }
 
+// serveTCPMonitor: a stream server whose application installed a request monitor that drops DELETE requests
+// (options.WithRequestMonitor: "drop" = the message is not processed, the connection lives on).  A peer pipelines a dropped
+// request and ordinary ones in ONE write; every ordinary request must be answered, in order, without further traffic.
+func serveTCPMonitor() string {
+	l, err := coapNet.NewTCPListener("tcp4", "127.0.0.1:0")
+	if err != nil {
+		return "rig-error listen"
+	}
+	defer l.Close()
+	r := mux.NewRouter()
+	_ = r.Handle("/echo", mux.HandlerFunc(func(w mux.ResponseWriter, req *mux.Message) {
+		body, _ := req.ReadBody()
+		_ = w.SetResponse(codes.Content, message.TextPlain, bytes.NewReader(body))
+	}))
+	s := tcp.NewServer(options.WithMux(r), options.WithErrors(func(error) {}),
+		options.WithRequestMonitor(tcpclient.RequestMonitorFunc(func(_ *tcpclient.Conn, req *pool.Message) (bool, error) {
+			return req.Code() == codes.DELETE, nil
+		})))
+	served := make(chan error, 1)
+	go func() { served <- s.Serve(l) }()
+	defer func() {
+		s.Stop()
+		select {
+		case <-served:
+		case <-time.After(3 * time.Second):
+		}
+	}()
+	c, err := net.Dial("tcp4", l.Addr().String())
+	if err != nil {
+		return "rig-error dial"
+	}
+	defer c.Close()
+	del := func(tok byte) []byte {
+		m := pool.NewMessage(context.Background())
+		m.SetCode(codes.DELETE)
+		m.SetToken(message.Token{0xDD, tok})
+		_ = m.SetPath("/echo")
+		b, _ := m.MarshalWithEncoder(tcpcoder.DefaultCoder)
+		return append([]byte(nil), b...)
+	}
+	var w []byte
+	w = append(w, []byte{0x00, 0xe1}...) // CSM
+	w = append(w, request(1, 1, 0, false)...)
+	w = append(w, del(1)...)
+	w = append(w, request(1, 2, 0, false)...)
+	w = append(w, del(2)...)
+	w = append(w, del(3)...)
+	w = append(w, request(1, 3, 0, false)...)
+	if _, err := c.Write(w); err != nil {
+		return "rig-error write"
+	}
+	// read frames for a second: the three POSTs must be answered in order (the server's own CSM comes first)
+	var got []string
+	var buf []byte
+	deadline := time.Now().Add(time.Second)
+	tmp := make([]byte, 4096)
+	for len(got) < 3 && time.Now().Before(deadline) {
+		_ = c.SetReadDeadline(deadline)
+		n, err := c.Read(tmp)
+		if err != nil {
+			break
+		}
+		buf = append(buf, tmp[:n]...)
+		for {
+			var h tcpcoder.MessageHeader
+			if _, err := tcpcoder.DefaultCoder.DecodeHeader(buf, &h); err != nil || uint32(len(buf)) < h.MessageLength {
+				break
+			}
+			m := pool.NewMessage(context.Background())
+			if _, err := m.UnmarshalWithDecoder(tcpcoder.DefaultCoder, buf[:h.MessageLength]); err == nil && m.Code() == codes.Content {
+				body, _ := m.ReadBody()
+				got = append(got, string(body))
+			}
+			buf = buf[h.MessageLength:]
+		}
+	}
+	return fmt.Sprintf("monitor answered %d/3 %s", len(got), strings.Join(got, ","))
+}
+
 // serveUDPGiveUp: the server has a confirmable request of its own outstanding towards peer A, who never answers; the
 // request is given up (ACK_TIMEOUT 40 ms, MAX_RETRANSMIT 1, housekeeping every 20 ms).  After that - and after A sent one
 // more datagram - peer B must still be served, and Stop() must end Serve.  (A silent peer must not cost the others anything.)
@@ -1608,6 +1688,8 @@ func TestC10(t *testing.T) {
 			msgs, _ := strconv.Atoi(f[5])
 			if f[1] == "udpwild" {
 				fmt.Fprintln(w, serveUDPWild(good)) // serve udpwild <seed> <slowMs> <unused> <unused>
+			} else if f[1] == "tcpmonitor" {
+				fmt.Fprintln(w, serveTCPMonitor()) // serve tcpmonitor 0 0 0 0
 			} else if f[1] == "udpgiveup" {
 				fmt.Fprintln(w, serveUDPGiveUp()) // serve udpgiveup 0 0 0 0
 			} else if f[1] == "udporder" {
